@@ -3,7 +3,7 @@
 #   (demo fails with the change, passes without, existing tests pass with the change)
 TAG=$1; ID=$TAG; WT=/tmp/seed_$TAG; OUT=/tmp/seed_out/$TAG
 cd $WT || exit 2
-CMD=$(python3 -c "import json;print(json.load(open('$OUT/meta.json'))['demo_cmd'])")
+CMD=$(python3 -c "import json,re;print(re.split(r'\s{2,}\(', json.load(open('$OUT/meta.json'))['demo_cmd'])[0])")
 echo "demo_cmd: $CMD"
 echo "== with change"; (eval "$CMD") 2>&1 | grep -E "^test result|panicked|FAILED|error(\[|:)" | head -8
 git diff -- src/ > /tmp/seed_verify_$TAG.diff; git apply -R /tmp/seed_verify_$TAG.diff && echo "== without change" && (eval "$CMD") 2>&1 | grep -E "^test result|panicked|FAILED|error(\[|:)" | head -5; git apply /tmp/seed_verify_$TAG.diff; rm -f /tmp/seed_verify_$TAG.diff
